@@ -7,12 +7,13 @@ Li2 == {"l1", "l2"}
 SV == {"a", "b"}
 EL == {"x", "y"}
 NoDev == {}
-Known == {"c10_emptied_list_not_cleared", "c10_edits_during_save_lost", "c11_default_marker"}
+Known == {"c10_emptied_list_not_cleared", "c10_edits_during_save_lost"}
 DEmpt == {"c10_emptied_list_not_cleared"}
 DLost == {"c10_edits_during_save_lost"}
 DDef == {"c11_default_marker"}
 \* the bare properties (no "or a deviation was used")
 BarePending == phase = "attached" /\ ~busy => SeqToSet(pend) = SeqToSet(dirty) /\ \A o \in SeqToSet(pend) : pval[o] = intent[o]
-BareAfterAck == (phase = "attached" /\ ~busy /\ dirty = <<>>) =>
-                  \A o \in Options : view[o] = intent[o] /\ (tor[o] = intent[o] \/ (tor[o] = <<>> /\ intent[o] \in {<<>>, Def(o)}))
+BareAfterAck == (phase = "attached" /\ ~busy /\ dirty = <<>> /\ evq = <<>>) =>
+                  \A o \in Options : /\ (view[o] = intent[o] \/ (intent[o] = <<>> /\ tor[o] = <<>> /\ view[o] = Def(o)))
+                                      /\ (tor[o] = intent[o] \/ (tor[o] = <<>> /\ intent[o] \in {<<>>, Def(o)}))
 ====
